@@ -300,8 +300,31 @@ Proof. intros t H. unfold type_ok in H. a_split. apply String.eqb_eq. assumption
 
 (* ---------------------------------------------------------------- the body dictionary of an element without owned elements *)
 
+(* a written value survives the reader: something besides commas and blanks is left *)
+Definition a_kept (s : string) : bool := negb (String.eqb (py_strip (remove_char "," s)) "").
+
+Lemma a_remove_none : forall c s, no_char c s = true -> remove_char c s = s.
+Proof.
+  intros c s. induction s as [|x s IH]; intro H; [reflexivity|].
+  cbn [no_char] in H. apply andb_true_iff in H. destruct H as [H1 H2]. apply negb_true_iff in H1.
+  cbn [remove_char]. rewrite H1, (IH H2). reflexivity.
+Qed.
+
+Lemma a_txt_kept : forall s, txt s = true -> negb (String.eqb s "") = true -> a_kept s = true.
+Proof.
+  intros s H Hn. unfold a_kept. unfold txt in H. a_split.
+  rewrite a_remove_none by assumption.
+  match goal with H : String.eqb (py_strip s) s = true |- _ => apply String.eqb_eq in H; rewrite H end. exact Hn.
+Qed.
+
+Lemma a_vtxt_kept : forall s, vtxt s = true -> String.eqb s "" = false -> a_kept s = true.
+Proof.
+  intros s H Hn. unfold vtxt in H. a_split.
+  match goal with H : (String.eqb s "" || _)%bool = true |- _ => rewrite Hn in H; cbn [orb] in H; exact H end.
+Qed.
+
 Definition a_flat (it : witem) : bool :=
-  match it with IField _ _ v => negb (String.eqb (unq v) "") | IRefs _ _ _ _ _ _ => true | _ => false end.
+  match it with IField _ _ v => a_kept (unq v) | IRefs _ _ _ _ _ _ => true | _ => false end.
 
 Lemma a_layout_parts : forall f l, layout_ok f l = true ->
   nodup_tags l [] = true /\ nodups (entry_keys (items_of "" f l)) = true
@@ -317,13 +340,13 @@ Proof.
   destruct t; match goal with H : match f ?T with Some _ => _ | None => _ end = true |- has_tag ?T l = true => rewrite Hf in H; exact H end.
 Qed.
 
-Lemma a_noise_val_ne : forall v, noise_val v = true -> negb (String.eqb (unq v) "") = true.
+Lemma a_noise_val_ne : forall v, noise_val v = true -> a_kept (unq v) = true.
 Proof.
   intros v H. unfold noise_val in H. apply orb_true_iff in H. destruct H as [H|H].
-  - a_split. rewrite a_unq_plain; [assumption|]. apply negb_true_iff. assumption.
+  - a_split. rewrite a_unq_plain; [apply a_txt_kept; assumption|]. apply negb_true_iff. assumption.
   - remember (substring 1 (String.length v - 2) v) as u eqn:Eu. clear Eu. a_split.
     match goal with H : String.eqb v (q u) = true |- _ => apply String.eqb_eq in H; subst v end.
-    rewrite a_unq_q. assumption.
+    rewrite a_unq_q. apply a_txt_kept; assumption.
 Qed.
 
 Lemma a_items_flat : forall ws f l,
@@ -344,7 +367,7 @@ Proof.
   cbn [forallb] in H. a_split. destruct (IH ltac:(assumption)) as [I1 I2].
   unfold children_of in *. cbn [forallb flat_map]. rewrite I1, I2.
   destruct it; try discriminate; split; try reflexivity.
-  cbn [a_flat item_simple] in *. rewrite andb_true_r. assumption.
+  cbn [a_flat item_simple] in *. unfold a_kept in *. rewrite andb_true_r. assumption.
 Qed.
 
 Lemma a_body : forall ws f l, layout_ok f l = true -> (forall t it, f t = Some it -> a_flat it = true) ->
@@ -390,10 +413,10 @@ Proof. intros. unfold flag_field, a_flag. destruct b; reflexivity. Qed.
 Lemma a_ref_entries : forall ws k ids, match ref_field ws k ids with Some it => item_entries it | None => [] end = a_ref k ids.
 Proof. intros. unfold ref_field, a_ref. destruct ids; reflexivity. Qed.
 
-Lemma a_text_flat : forall ws k v it, text_field ws k v = Some it -> a_flat it = true.
+Lemma a_text_flat : forall ws k v it, vtxt v = true -> text_field ws k v = Some it -> a_flat it = true.
 Proof.
-  intros ws k v it H. unfold text_field in H. destruct (String.eqb v "") eqn:E; [discriminate|].
-  injection H as H. subst it. cbn [a_flat]. rewrite a_unq_q, E. reflexivity.
+  intros ws k v it Hv H. unfold text_field in H. destruct (String.eqb v "") eqn:E; [discriminate|].
+  injection H as H. subst it. cbn [a_flat]. rewrite a_unq_q. apply a_vtxt_kept; assumption.
 Qed.
 Lemma a_flag_flat : forall ws k b it, flag_field ws k b = Some it -> a_flat it = true.
 Proof. intros ws k b it H. unfold flag_field in H. destruct b; [|discriminate]. injection H as H. subst it. reflexivity. Qed.
@@ -429,10 +452,10 @@ Lemma a_attr_flat : forall S a, attr_ok S a = true -> forall t it, attr_item a t
 Proof.
   intros S a H t it Hi. unfold attr_ok in H. a_split.
   destruct t; cbn [attr_item] in Hi; try discriminate Hi;
-    try (eapply a_text_flat; eassumption); try (eapply a_flag_flat; eassumption); try (eapply a_ref_flat; eassumption).
+    try (eapply a_text_flat; [|eassumption]; assumption); try (eapply a_flag_flat; eassumption); try (eapply a_ref_flat; eassumption).
   - destruct (sa_vis a) as [c|]; [|discriminate]. injection Hi as Hi. subst it.
     match goal with H : code_ok (Some c) = true |- _ => cbn [code_ok] in H end. a_split.
-    cbn [a_flat]. rewrite a_unq_plain; [assumption | apply negb_true_iff; assumption].
+    cbn [a_flat]. rewrite a_unq_plain; [apply a_txt_kept; assumption | apply negb_true_iff; assumption].
   - destruct (sa_static a); [|discriminate]. injection Hi as Hi. subst it. reflexivity.
 Qed.
 
